@@ -15,8 +15,9 @@ REGISTRY = []
 
 
 class LoopSpec:
-    def __init__(self, inv):
+    def __init__(self, inv, sorts=None):
         self.inv = inv
+        self.sorts = sorts or {}     # element sorts of list-valued loop-carried variables
 
 
 class Contract:
